@@ -218,7 +218,7 @@ def key_worker(_):
     return {"rows": rows}
 
 
-def check(ctx, rep: Report):
+def _check_main(ctx, rep: Report):
     # TRUTH / EMPTY
     rep.rules["C06.TRUTH"] = "truthiness tests whose operand is an element/key/index (argument, read from the container, or index() result); non-trivial = a recorded truthiness test on the element-helper paths"
     elem_tasks = [t for t in provrun.helper_tasks(ctx, families=False) if ctx.helpers[t[0]].family in FAMS]
@@ -419,3 +419,12 @@ def check(ctx, rep: Report):
         rep.oblige("C06.CONT", f"KeyedList.{meth}", not bad, "; ".join(sorted(set(bad))))
         for b in sorted(set(bad)):
             rep.violate(Violation("C06.CONT", f"C06.CONT|{meth}|{b[:60]}", f"KeyedList.{meth}: {b}: a second by-key element edit starts from a stale element", "", f"KeyedList.{meth}"))
+
+
+def check(ctx, rep):
+    from . import metarules, shared
+    _check_main(ctx, rep)
+    shared.unused_params(ctx, rep, "C06.PARAM", ["spec_classes.collections", "spec_classes.methods.collections"])
+    shared.own_namespace_lookups(ctx, rep, "C06.NS")
+    from . import keyedrules
+    keyedrules.order_bearing(ctx, rep, "C06.KEYED")
